@@ -66,7 +66,7 @@ def event_token(ev):
     if k == "P":
         _, t, sv, mt, rel, code, obs, body, nr, mr, il = ev[:11]
         return f"P@{t}:{sv}:{_o(mt)}:{'-' if rel is None else _b(rel)}:{code}:{_o(obs)}:{body}:{nr}:{mr}:{_b(il)}"
-    if k in ("C", "E"):
+    if k in ("C", "E", "K"):
         return f"{k}@{ev[1]}:{ev[2]}"
     if k == "F":
         return f"F@{ev[1]}:{ev[2]}:{_b(ev[3])}"
@@ -91,9 +91,12 @@ class Runner:
         self.snapshots = []
         self.done_calls = {}
         self.shutdown_info = {}
+        self.shutdown_task = None
+        self.more_shutdown_tasks = []
         self.futures_at_shutdown = {}
         self.consumers = {}
         self.consumer_tasks = []
+        self.consumer_task_of = {}
 
     # ---- hooks on the implementation -----------------------------------------------------
     def on_send(self, tick, dest, data):
@@ -275,7 +278,8 @@ class Runner:
                         state["items"] += 1
                     state["end"] = "stopped"
                 except asyncio.CancelledError:
-                    state["end"] = "cancelled-by-harness"
+                    if state["end"] == "pending":
+                        state["end"] = "cancelled-by-harness"
                     raise
                 except Exception as e:
                     state["end"] = "raised:" + ",".join(c.__name__ for c in type(e).__mro__)
@@ -283,6 +287,15 @@ class Runner:
             task = self.loop.create_task(consume())
             task.add_done_callback(lambda f: f.cancelled() or f.exception())
             self.consumer_tasks.append(task)
+            self.consumer_task_of[r] = task
+
+    def do_K(self, ev):
+        """["K", t, r]: the application cancels the task that iterates over the observation of request `r` (a worker
+        being stopped, an `asyncio.wait_for` around the iteration timing out).  Oracle-only scenarios."""
+        task = self.consumer_task_of.get(ev[2])
+        if task is not None:
+            task.cancel()
+            self.consumers[ev[2]]["end"] = "cancelled-by-application"
 
     def do_N(self, ev):
         """["N", t, [ev, ...]]: several input events back to back in ONE loop callback (oracle-only scenarios)"""
@@ -343,6 +356,11 @@ class Runner:
             msg.payload = str(body).encode()
         if il:
             self.srv_done.add(sv)
+        if unsendable == "uncopyable":
+            # serialises, but cannot be deep-copied (the message layer keeps a copy of an ACK for duplicates)
+            msg.opt.etag = memoryview(b"abcd")
+            pipe.add_response(msg, is_last=il)
+            return
         if unsendable:
             # a message that cannot be serialised (str payload): sending it raises into the application, which
             # answers with a bare 5.00 instead, as error_to_message does (oracle-only scripts)
@@ -402,13 +420,22 @@ class Runner:
             self.net.send_errors.pop(addr, None)
 
     def do_X(self, ev):
+        if not self.shut and getattr(self, "ctx2", None) is not None and self.script.get("second_context") == "busy":
+            # the other context in this process is in the middle of something: a CON request whose handler is slow
+            self.ctx2_busy_since = self.loop.now_ticks()
+            self.net2.inject(W.build("CON", 1, 0x7778, b"\x0a", [(W.URI_PATH, b"slow")], b""), netsim.peer(4))
         self.shut = True
+
+        again = self.shutdown_task is not None           # a second X: the application calls shutdown() once more
 
         async def shut():
             try:
                 await self.ctx.shutdown()
-            except Exception as e:
-                self.shutdown_info["error"] = f"{type(e).__name__}: {e}"
+            except BaseException as e:       # also a CancelledError leaking out of a future the library touched
+                self.shutdown_info["error"] = (("second call: " if again else "") + f"{type(e).__name__}: {e}")
+            if again:
+                self.shutdown_info["again_done_tick"] = self.loop.now_ticks()
+                return
             self.shutdown_info["done_tick"] = self.loop.now_ticks()
             self.futures_at_shutdown = {k: _future_state(q) for k, q in self.requests.items()}
             self.shutdown_info["handlers_alive"] = sorted(self.srv_pipes)
@@ -416,9 +443,13 @@ class Runner:
         if len(ev) > 2 and ev[2]:
             # the application's task calls shutdown() in this very callback (it was woken by a timer that fired in
             # the loop iteration in which the preceding datagram arrived): runs synchronously up to its first wait
-            self.shutdown_task = asyncio.Task(shut(), loop=self.loop, eager_start=True)
+            task = asyncio.Task(shut(), loop=self.loop, eager_start=True)
         else:
-            self.shutdown_task = self.loop.create_task(shut())
+            task = self.loop.create_task(shut())
+        if again:
+            self.more_shutdown_tasks.append(task)
+        else:
+            self.shutdown_task = task
 
     # ---- the site: hands every request to the script ---------------------------------------
     async def render_to_pipe(self, pipe):
@@ -458,6 +489,21 @@ class Runner:
                 self.ctx2, self.net2 = await netsim.make_context(loop, site=ProbeSite())
             assert loop.now_ticks() == 0
             self.net.on_send = self.on_send
+            raising = set(self.script.get("send_raises") or [])
+            if raising:
+                # a transport whose send() raises (tinydtls and slipmux can; udp6 reports errors differently): the
+                # first transmission of the request with one of these bodies fails with an exception
+                mi = self.ctx.request_interfaces[0].token_interface.message_interface
+                real_send = mi.send
+
+                def send(message, real_send=real_send):
+                    key = bytes(message.payload)
+                    if key in {str(b).encode() for b in raising} and 1 <= int(message.code) < 32:
+                        raising.discard(int(key))
+                        raise RuntimeError("harness: the transport failed to send this message")
+                    return real_send(message)
+
+                mi.send = send
             last = 0
             for ev in self.script["events"]:
                 self.schedule(ev)
@@ -469,6 +515,8 @@ class Runner:
             self.snapshots.append(self.state_summary())
             if self.shut:
                 await self.shutdown_task
+                for t in self.more_shutdown_tasks:
+                    await t
                 if self.script.get("second_context"):
                     self.shutdown_info["second_context"] = await self.second_context_works()
             else:
@@ -486,7 +534,7 @@ class Runner:
 
     async def second_context_works(self):
         """another context in the same loop still serves a request after the first was shut down"""
-        return await probe_context(self.loop, self.ctx2, self.net2)
+        return await probe_context(self.loop, self.ctx2, self.net2, getattr(self, "ctx2_busy_since", None))
 
     def state_summary(self):
         """the tables of MessageManager and TokenManager, rendered like the model's `stateStr`;
@@ -521,10 +569,23 @@ class Runner:
 class ProbeSite:
     async def render_to_pipe(self, pipe):
         import aiocoap
+        if pipe.request.opt.uri_path == ("slow",):
+            await asyncio.get_running_loop().create_future()          # never answers
         pipe.add_response(aiocoap.Message(code=aiocoap.CONTENT, payload=b"42"), is_last=True)
 
 
-async def probe_context(loop, ctx, net):
+async def probe_context(loop, ctx, net, busy_since=None):
+    if busy_since is not None:
+        # the other context was handed a CON request with a slow handler just before the first context shut down:
+        # its empty ACK is due EMPTY_ACK_DELAY after the arrival, whatever the first context did to its own timers
+        ead = default_cfg()["emptyAckDelay"]
+        await asyncio.sleep((ead + 10) * vloop.TICK)
+        acks = [(t, W.parse(b)) for (t, _, b) in net.sent]
+        acks = [(t, p) for (t, p) in acks if p["mtype"] == "ACK" and p["mid"] == 0x7778]
+        if [(t, p["code"]) for (t, p) in acks] != [(busy_since + ead, 0)]:
+            await ctx.shutdown()
+            return (f"the other context's pending empty ACK (request arrived at {busy_since}) was sent "
+                    f"{[(t, p['code']) for (t, p) in acks]}, expected once at {busy_since + ead}")
     n0 = len(net.sent)
     net.inject(W.build("CON", 1, 0x7777, b"\x09", [], b""), netsim.peer(5))
     for _ in range(10):
